@@ -279,7 +279,9 @@ def conc_corpus():
         # control operations while the worker is busy
         ["p 0 20", "p 0 30", "p 0 40", "m c 0", "m c 1", "m c 1", "m x", "m c 1", "m stop",
          "run 2 2 2 2 1 1 0 0 1 0 2 2 0 0 0 2 2 1 1 1 0 0 0 2 2 2 2 0 0 1 1"],
-        # two producers interleaved (the second one's call can be turned away by the in_logger guard)
+        # witness of the process-wide in_logger guard (fixes/C16-5): producer 1 logs while producer 0 is inside its call
+        ["p 0 20", "p 1 30", "m stop", "run 2 3 2 2 2 1 1 1 1 0 0 0 0 0 0 1 1 1 1 1 0"],
+        # two producers interleaved
         ["p 0 20", "p 1 30", "p 0 22", "p 1 33", "m stop", "run 2 3 2 3 2 3 2 3 1 1 1 2 3 2 3 2 3 1 1 0 0 0"],
         # backlog limit: 130 records of 4000 bytes while the worker does not run, then drain
         ["p 0 4000"] * 130 + ["p 0 100", "m stop", "run " + " ".join(["2"] * 600) + " 1 1 1 1 1 1 2 2 2 2"],
@@ -405,10 +407,8 @@ def conc_monitor(case, lines, crash):
                         # logged while the target was enabled but never handed to the logging thread
                         others = [j for j, v in in_call.items() if v and j != i]
                         if others:
-                            guard_losses += 1
-                            logged[(i, k)] = "guard"
-                        else:
-                            unexplained.append((i, k))
+                            guard_losses += 1             # the (repaired) process-wide in_logger guard, fixes/C16-5
+                        unexplained.append((i, k, others))
                 elif lab.startswith("post") or (lab.startswith("unlock") and (nxt[idx] is None or not nxt[idx].startswith("post"))):
                     in_call[i] = False
         elif p[0] == "w":
@@ -440,7 +440,9 @@ def conc_monitor(case, lines, crash):
         if logged.get(w) != "queued":
             return "message %d.%d was written but never queued" % w, guard_losses
     if unexplained:
-        return "message %d.%d was logged while the target was enabled but never reached the logging thread" % unexplained[0], guard_losses
+        i, k, others = unexplained[0]
+        return ("message %d.%d was logged while the target was enabled but never reached the logging thread%s" %
+                (i, k, " (turned away while producer %s was inside a log call: in_logger guard)" % others if others else "")), guard_losses
     if stopped:
         if final is None:
             return "no final state reported", guard_losses
